@@ -113,11 +113,12 @@ Definition scan_struct (idx : list nat) (dup : bool) (fs : list (finfo * gtype))
          let index := idx ++ [i] in
          let ft := match ty with TyPtr t' => t' | _ => ty end in  (* an unnamed pointer type is followed *)
          let is_struct := match kind_of ft with KdStruct => true | _ => false end in
-         let override := fi_embedded fi && negb (nonempty name) && is_struct && nonempty (type_name ty) && ovr (type_name ty) in
+         (* schemas[sf.Type], else schemas[ft]: an embedded *T is replaced by the entry for T *)
+         let override := fi_embedded fi && negb (nonempty name) && is_struct && nonempty (type_name ft) && ovr (type_name ft) in
          if nonempty name || negb (fi_embedded fi) || negb is_struct || override then
            let quoted := mem_str (lit "string"%lit) opts &&
                          match kind_of ft with KdBool | KdInt _ | KdFloat | KdString => true | _ => false end in
-           let f := mkJ (if override then 0%N :: type_name ty else if nonempty name then name else fi_name fi) (nonempty name) index ft
+           let f := mkJ (if override then 0%N :: (match ty with TyPtr _ => 42%N :: type_name ft | _ => type_name ft end) else if nonempty name then name else fi_name fi) (nonempty name) index ft
                         (mem_str (lit "omitempty"%lit) opts) (mem_str (lit "omitzero"%lit) opts) quoted fi ty override in
            (fst acc ++ (if dup then [f; f] else [f]), snd acc)
          else (fst acc, snd acc ++ [(index, ft)]))
